@@ -72,6 +72,8 @@ func ruleC10(p *Prog, r *Res) {
 					key := fmt.Sprintf("store to View.%s in %s", fv.Name(), f.Key())
 					if why, ok := allowedA[f.Key()]; ok {
 						r.OkTrivial(ruleA, key, p.Pos(as), why)
+					} else if calledOnlyFrom(p, f.Root(), func(g *Fn) bool { _, ok := allowedA[g.Key()]; return ok }, 0) {
+						r.OkTrivial(ruleA, key, p.Pos(as), "helper called only from the view's own writers")
 					} else {
 						r.Bad(ruleA, key, p.Pos(as), "a view's snapshot is modified outside fetch/prefetch: the view no longer gives the same answers for its lifetime")
 					}
